@@ -42,8 +42,13 @@ def run(ctx):
                 fm = {'pars': [mu], 'val': free['val'] + dv}
                 f0 = {'pars': [0.0], 'val': free['val'] + rng.choice([0.0, rng.uniform(0, 10), -1e-7])}
                 lower = rng.choice([0.0, -5.0])
-                tsmod.fit = lambda data, pdf, init, bounds, fixed, return_fitted_val=False, **kw: (tl.astensor(np.asarray(free['pars'])), tl.astensor(np.asarray(free['val'])))
+                seen_bounds = []
+                def fake_fit(data, pdf, init, bounds, fixed, return_fitted_val=False, **kw):
+                    seen_bounds.append(('fit', [tuple(map(float, b_)) for b_ in bounds]))
+                    return tl.astensor(np.asarray(free['pars'])), tl.astensor(np.asarray(free['val']))
+                tsmod.fit = fake_fit
                 def fake_fixed(poi_val, data, pdf, init, bounds, fixed, return_fitted_val=False, **kw):
+                    seen_bounds.append(('fixed_poi_fit', [tuple(map(float, b_)) for b_ in bounds]))
                     d = f0 if (poi_val == 0 and mu != 0) else fm
                     return tl.astensor(np.asarray(d['pars'])), tl.astensor(np.asarray(d['val']))
                 tsmod.fixed_poi_fit = fake_fixed
@@ -58,6 +63,9 @@ def run(ctx):
                 inp = {'ts': ts, 'mu': mu, 'free': free, 'fixed_at_mu': fm, 'fixed_at_0': f0, 'backend': bk}
                 if not close(v_i, b2f(rep['value']), 1e-13, 0):
                     ctx.disagree('teststat.value', inp, b2f(rep['value']), v_i)
+                # both fits are run on the caller's problem: the bounds handed to them are the caller's
+                if any(b_ != [(lower, 10.0)] for _, b_ in seen_bounds):
+                    ctx.disagree('teststat.forwarded-bounds', dict(inp, poi_bounds=[lower, 10.0]), [(lower, 10.0)], seen_bounds)
                 if [float(x) for x in np.asarray(tl.tolist(pa)).ravel()] != unfl(rep['fixed_pars']) or \
                    [float(x) for x in np.asarray(tl.tolist(pb)).ravel()] != unfl(rep['free_pars']):
                     ctx.disagree('teststat.pars', inp, [unfl(rep['fixed_pars']), unfl(rep['free_pars'])], [tl.tolist(pa), tl.tolist(pb)])
@@ -79,7 +87,9 @@ def run(ctx):
         n = float(rng.choice([0, 1, int(b), int(b + s), int(b + 2 * s), int(0.5 * b), rng.randint(0, int(2 * b + 3 * s))]))
         mu = rng.choice([0.0, 0.5, 1.0, 2.0, rng.uniform(0, 4)])
         ts = rng.choice(list(funcs))
-        lo = 0.0 if ts in ('qtilde', 'ttilde', 'q0') else -2.0
+        # lower POI bound zero or negative for every statistic (the tilde statistics warn about a negative one and then compute within
+        # the bounds they were given)
+        lo = 0.0 if (ts in ('qtilde', 'ttilde', 'q0') and rng.random() < 0.6) else -2.0
         if (lo * s + b) <= 0: lo = -0.5 * b / s
         m = pyhf.Model(counting.single_bin_spec(s, b), poi_name='mu')
         bounds = [(lo, 10.0)]
